@@ -294,6 +294,7 @@ def main(argv=None):
             items.append(it)
 
     n_small, n_thl, n_mid = (20, 12, 6) if q else (150, 120, 80)
+    n_sim = 30 if q else 300
     for _ in range(n_small):
         algo = rng.choice(["ext_spfs", "superdtl", "base_spfs", "base_uspfs", "thl"])
         ordered = D.ORDERED.get(algo, rng.random() < 0.5)
@@ -307,7 +308,16 @@ def main(argv=None):
     for _ in range(n_mid):
         algo = rng.choice(["ext_spfs", "superdtl", "base_uspfs"])
         add(SR.random_super_input(rng, rng.randint(4, 5), rng.randint(3, 4), rng.randint(2, 4 if algo != "ext_spfs" else 3), D.ORDERED[algo]), algo, 2, "dhs")
-    names = ["2-3 leaves, five symbolic costs, all solvers", "thl 5-10 object leaves / 3-8 species", "super solvers 4-5 leaves, dup/hgt/sloss symbolic"]
+    # inputs simulated forward from the event model (transfers, losses across gene-less species, gains below the root): three of the six
+    # transformations each, chosen at random
+    for d in SR.simulated_inputs(rng, n_sim, 6, 6, 0, False, min_leaves=4):
+        add(d, "thl", 3, "dhs", rng.sample(TRANSFORMS, 3))
+    for d in SR.simulated_inputs(rng, n_sim // 2, 5, 4, 3, False, min_leaves=4):
+        add(d, "superdtl", 3, "dhs", rng.sample(TRANSFORMS[:4], 2))
+    for d in SR.simulated_inputs(rng, n_sim // 3, 5, 4, 3, True, min_leaves=4):
+        add(d, "ext_spfs", 3, "dhs", rng.sample(TRANSFORMS[:4], 2))
+    names = ["2-3 leaves, five symbolic costs, all solvers", "thl 5-10 object leaves / 3-8 species", "super solvers 4-5 leaves, dup/hgt/sloss symbolic",
+             "simulated inputs (thl, superdtl, ext_spfs), two or three transformations each"]
     order = sorted(range(len(items)), key=lambda i: -(items[i]["section"] == 2) * 1000 - len(str(items[i]["desc"]["ot"])))
     res, sk = R.run_sharded(worker, [items[i] for i in order], 170 if q else 3000)
     for si, nm in enumerate(names):
@@ -320,7 +330,8 @@ def main(argv=None):
                                     m6._compute_gain_sets, m6._compute_lca_sets, m7.sort_synteny, m4.ReconciliationOutput.__hash__,
                                     m4.SuperReconciliationOutput.__hash__)
     rep.bounds = {"inputs": f"seeded: {n_small} inputs 2-3 leaves (five symbolic costs), {n_thl} plain inputs 5-10 object leaves / 3-8 species for thl, "
-                            f"{n_mid} labelled inputs 4-5 leaves (dup, hgt, sloss symbolic); each under all six transformations",
+                            f"{n_mid} labelled inputs 4-5 leaves (dup, hgt, sloss symbolic); each under all six transformations; "
+                            f"{n_sim} + {n_sim // 2} + {n_sim // 3} inputs simulated forward from the event model under two or three transformations",
                   "transformations": "children reordered at every node of both trees; every leaf, ancestor and family renamed (numeric suffixes); outgroup species "
                                      "added; same input again; all costs x k (k in 2,3,7); one symbolic cost + delta (delta >= 0 symbolic)",
                   "costs": "non-negative integers in the coherent region before and after the change; 15% of runs with hgt = infinity.inf"}
